@@ -26,7 +26,7 @@ def sh(cmd, **kw):
 
 
 def main():
-    prop, name, src = sys.argv[1], sys.argv[2], Path(sys.argv[3])
+    prop, name, src = sys.argv[1], sys.argv[2], Path(sys.argv[3]).resolve()
     checks = [prop]
     if "--checks" in sys.argv:
         checks = sys.argv[sys.argv.index("--checks") + 1].split(",")
@@ -73,6 +73,7 @@ def main():
     assert not st, "/repo not clean: " + st
     meta["checks"] = {}
     r = sh(f"git -C /repo apply {src}/patch.diff")
+    assert r.returncode == 0, "patch does not apply to /repo: " + r.stderr
     try:
         for c in checks:
             t0 = time.time()
@@ -83,10 +84,11 @@ def main():
     finally:
         sh("git -C /repo checkout -- .")
     out.mkdir(parents=True, exist_ok=True)
-    shutil.copy(src / "patch.diff", out / "patch.diff")
-    shutil.copy(src / "demo.py", out / "demo.py")
+    if src.resolve() != out.resolve():
+        shutil.copy(src / "patch.diff", out / "patch.diff")
+        shutil.copy(src / "demo.py", out / "demo.py")
     notes = (src / "notes.txt").read_text() if (src / "notes.txt").exists() else ""
-    meta["needs_to_manifest"] = notes[:3000]
+    meta["needs_to_manifest"] = notes[:3000] if notes else (old.get("needs_to_manifest", "") if reuse else "")
     (out / "meta.json").write_text(json.dumps(meta, indent=1) + "\n")
     print(json.dumps({k: meta[k] for k in ("confirmed", "test_suite_with_patch", "demo_with_patch_exit", "demo_without_patch_exit", "checks")}, indent=1))
     return 0
